@@ -25,6 +25,7 @@ structure LoopSt (c : Bool) (inst : Instance) (dom : List Nat) (s0 : St) (g : Na
     e'.coinductiveGoal = e.coinductiveGoal ∧ (e.cycle = true → e'.cycle = true)
   cacheExt : ∀ k v, InCache s0 k v → InCache s k v
   low : ∀ k, Undef s0 k → Def s k (bot c) → ¬ InG c inst s0 k
+  cacheMode : s.cache.isSome = s0.cache.isSome
 
 theorem LoopSt.ext {s0 s : St} {g : Nat} (L : LoopSt c inst dom s0 g s) : ∀ k v, Def s0 k v → Def s k v := by
   intro k v h
